@@ -7,7 +7,7 @@
    control nodes and every notion of halting: nothing observable can be dropped, duplicated or reordered. *)
 From Coq Require Import ZArith List String Lia.
 From Verif Require Import Base.Word256 Base.PyInt C15.Syntax C15.GenUtils C15.Optimizer C15.FoldSound C15.OptSound
-  C15.OptTree C15.OptTreeSound.
+  C15.OptTree C15.OptTreeSound C15.Bytes C15.MergeSound.
 Import ListNotations.
 Open Scope Z_scope.
 
@@ -48,21 +48,49 @@ Theorem optimize_sound_partial :
 Proof. exact optimize_sound_gen. Qed.
 Print Assumptions optimize_sound_partial.
 
-(* the trace semantics is one instance: effectful nodes append their name to a trace and may read it *)
-Definition TraceSem (orc : string -> list Z -> list string -> Z) (vars : string -> Z) : Sem :=
-  {| St := list string; Hl := list string;
-     getvar := fun _ x => vars x;
-     sem_K := fun op ds s =>
-       (fix go (l : list (list string -> outcome (list string) (list string))) (acc : list Z) (s : list string) :=
-          match l with
-          | [] => Norm (wrap (orc op acc s)) (op :: s)
-          | d :: t => match go t acc s with
-                      | Norm _ s1 => match d s1 with Norm v s2 => Norm (wrap (orc op (v :: acc) s2)) s2 | Halt h => Halt h end
-                      | Halt h => Halt h
-                      end
-          end) ds [] s;
-     sem_revert := fun s => ("revert"%string :: s);
-     sem_invalid := fun s => ("invalid"%string :: s) |}.
+(* ---- the seq-level merges, for state spaces with an EVM byte memory ([MemOk]: a lens onto the byte array, read-only
+   calldata / data section, the usual meaning of mstore mload calldataload calldatacopy dload dloadbytes mcopy) ---- *)
+Theorem merge_memzero_sound :
+  forall (M : Sem), SemOk M -> MemOk M -> forall l c l',
+    Forall wf l -> merge_memzero l = Ok (c, l') -> equiv_val M (Node "seq" l) (Node "seq" l') /\ Forall wf l'.
+Proof. intros M OK MO l c l' W H. eapply memzero_sound; eauto. Qed.
+Theorem merge_load_sound :
+  forall (M : Sem), SemOk M -> MemOk M -> forall l c l',
+    Forall wf l ->
+    (merge_load "calldataload" "calldatacopy" true l = Ok (c, l') \/
+     merge_load "dload" "dloadbytes" true l = Ok (c, l') \/
+     merge_load "mload" "mcopy" false l = Ok (c, l')) ->
+    equiv_val M (Node "seq" l) (Node "seq" l') /\ Forall wf l'.
+Proof.
+  intros M OK MO l c l' W [H|[H|H]];
+    [eapply calldataload_sound | eapply dload_sound | eapply mload_sound]; eauto.
+Qed.
+(* the overlap guard of the mload merge is exactly the condition under which word-by-word forward copying equals
+   MCOPY: with it two adjacent copies compose, without it they differ *)
+Theorem mcopy_guard_exact :
+  (forall m d s t n, (d <= s \/ s + t + n <= d)%nat ->
+     mcopy_mem (mcopy_mem m d s t) (d + t) (s + t) n = mcopy_mem m d s (t + n)) /\
+  (exists m, mcp_iter 2 m 0 32 <> mcopy_mem m 32 0 64).
+Proof. split; [exact mcopy_compose | eexists; exact mcp_iter_overlap_differs]. Qed.
+Theorem merges_all_sound :
+  forall (M : Sem), SemOk M -> MemOk M -> forall cancun l c l',
+    Forall wf l -> merges cancun l = Ok (c, l') -> equiv_val M (Node "seq" l) (Node "seq" l') /\ Forall wf l'.
+Proof. intros M OK MO cancun l c l' W H. eapply merges_sound; eauto. Qed.
+Print Assumptions merges_all_sound.
+
+(* optimize_sound: whenever the model of optimizer.optimize returns a tree (it may raise StaticAssertionException =
+   Err Raised, hit the IRnode range assertion = Err AssertFail, or decline a merge with negative literal offsets =
+   Err TypeErr), that tree has exactly the meaning of the input tree *)
+Theorem optimize_sound :
+  forall (M : Sem), SemOk M -> MemOk M ->
+  forall cancun e e', wf e -> optimize cancun e = Ok e' -> equiv_val M e e' /\ wf e'.
+Proof. intros M OK MO cancun e e' W H. eapply optimize_sound_all; eauto. Qed.
+Print Assumptions optimize_sound.
+
+(* SemOk is satisfiable *)
+Example semok_inhabited : SemOk {| St := unit; Hl := unit; getvar := fun _ _ => 0;
+                                   sem_K := fun _ _ s => Norm 0 s; sem_revert := fun s => s; sem_invalid := fun s => s |}.
+Proof. constructor; cbn; intros; [inversion H; unfold W; lia | reflexivity]. Qed.
 
 (* non-vacuity: rewrites fire at the boundaries, the rollback does happen, whole trees are rewritten *)
 Example opt_binop_nonvacuous :
@@ -76,5 +104,10 @@ Example opt_binop_nonvacuous :
     = Ok (Node "mstore" [Lit 0; Node "if" [Un U_iszero (Var "c"); Var "x"; Bin B_or (Var "x") (Lit 2)]]) /\
   optimize true (Node "if" [Bin B_gt (Var "x") (Lit 5); Node "seq" [Node "mstore" [Lit 0; Lit 0]; Node "mstore" [Lit 32; Lit 0]]])
     = Ok (Node "if" [Bin B_ge (Var "x") (Lit 6); Node "calldatacopy" [Lit 0; Var "calldatasize"; Lit 64]]) /\
-  optimize true (Node "assert" [Bin B_lt (Var "x") (Lit 0)]) = Err Raised.
+  optimize true (Node "assert" [Bin B_lt (Var "x") (Lit 0)]) = Err Raised /\
+  optimize true (Node "seq" [Node "mstore" [Lit 64; Node "mload" [Lit 0]]; Node "mstore" [Lit 96; Node "mload" [Lit 32]]; Node "stop" []])
+    = Ok (Node "seq" [Node "mcopy" [Lit 64; Lit 0; Lit 64]; Node "stop" []]) /\
+  (* overlapping: destination inside the source range -> no merge *)
+  optimize true (Node "seq" [Node "mstore" [Lit 32; Node "mload" [Lit 0]]; Node "mstore" [Lit 64; Node "mload" [Lit 32]]; Node "stop" []])
+    = Ok (Node "seq" [Node "mstore" [Lit 32; Node "mload" [Lit 0]]; Node "mstore" [Lit 64; Node "mload" [Lit 32]]; Node "stop" []]).
 Proof. repeat split; vm_compute; reflexivity. Qed.
